@@ -192,7 +192,7 @@ def run_reference(case: Case, inp: Input, creates, step_budget=200_000):
     if getattr(case, "foundry", False):
         import foundry
 
-        foundry.Foundry(ev, tape=list(getattr(inp, "tape", None) or []))
+        foundry.Foundry(ev, tape=list(getattr(inp, "tape", None) or getattr(case, "default_tape", None) or []))
         try:
             ok, ret, kind = ev.call(case.target, inp.caller, inp.value, bytes(4) + b"".join(x.to_bytes(32, "big") for x in inp.cd),
                                     transfer=False, static=case.static)
@@ -488,7 +488,7 @@ def diff_case(case: Case, rng, res, n_random=4, n_models=2, unknown_p=0.0, recor
             res["counters"]["inputs_uncovered"] += 1
             if flagged:
                 res["counters"]["uncovered_excused_bounded"] += 1
-            elif max(list(inp.balances.values()) + [0]) > 2**128:
+            elif max(list(inp.balances.values()) + [0]) > 2**128 or anyref["evm"].tr.get("deal_above_max_eth"):
                 res["counters"]["uncovered_excused_assumption"] += 1
             elif judge_c02:
                 ref = anyref
